@@ -22,6 +22,7 @@ type c08Case struct {
 	B       obs.Hex `json:"bytes"`
 	Pattern int     `json:"pattern"` // 0 zero 1 0xFF 2 0x3F ("small length") 3 0x01 4 counting 5 next packet 6 invert
 	Next    obs.Hex `json:"next"`
+	Route   int     `json:"route,omitempty"` // DHCPv6: 0 FromBytes, 1 the typed entry point for the datagram's message type (MessageFromBytes / RelayMessageFromBytes)
 }
 
 func scribble(buf []byte, pattern int, next []byte) {
@@ -96,9 +97,26 @@ func c08Reparse(d dhcpv6.DHCPv6) [][]byte {
 	return bufs
 }
 
+var c08Route int
+
 func c08Decode(v6 bool, buf []byte) (*c08Msg, bool) {
 	if v6 {
-		d, err := dhcpv6.FromBytes(buf)
+		var d dhcpv6.DHCPv6
+		var err error
+		switch {
+		case c08Route == 1 && len(buf) > 0 && (buf[0] == 12 || buf[0] == 13):
+			var r *dhcpv6.RelayMessage
+			if r, err = dhcpv6.RelayMessageFromBytes(buf); err == nil {
+				d = r
+			}
+		case c08Route == 1 && len(buf) > 0:
+			var m *dhcpv6.Message
+			if m, err = dhcpv6.MessageFromBytes(buf); err == nil {
+				d = m
+			}
+		default:
+			d, err = dhcpv6.FromBytes(buf)
+		}
 		if err != nil {
 			return nil, false
 		}
@@ -114,6 +132,8 @@ func c08Decode(v6 bool, buf []byte) (*c08Msg, bool) {
 var c08 = newChk("C08", "ownership",
 	"accepted DHCPv4/DHCPv6 inputs covering every option type (nested in IA, vendor, NTP and relay options too) decoded from a private buffer; the buffer is then overwritten (all-zero, all-0xFF, 0x3F 'small length', 0x01, counting, next-packet, inverted) and the message's encoding and its whole observer walk (fields, printed form, accessors) must not change; then the returned encoding is overwritten and a later encoding and walk must not change; non-trivial = message has ≥1 option with a variable-length payload; distinct by hash of (input, pattern)",
 	func(rec *obs.Rec, c c08Case) *obs.Fail {
+		c08Route = c.Route
+		defer func() { c08Route = 0 }()
 		buf := append([]byte{}, c.B...)
 		m, ok := c08Decode(c.V6, buf)
 		if !ok {
@@ -260,6 +280,7 @@ func genC08() *rapid.Generator[c08Case] {
 	return rapid.Custom(func(t *rapid.T) c08Case {
 		c := c08Case{V6: rapid.IntRange(0, 3).Draw(t, "fam") != 0, Pattern: rapid.IntRange(0, 6).Draw(t, "pattern")}
 		if c.V6 {
+			c.Route = rapid.IntRange(0, 1).Draw(t, "route")
 			c.B = genV6Mutated(rapid.SampledFrom([]int{0, 0, 1}).Draw(t, "mut")).Draw(t, "v6")
 			if c.Pattern == 5 {
 				c.Next = genV6Wire(v6Cfg(2, 8, false)).Draw(t, "next")
@@ -292,7 +313,28 @@ func TestC08_EveryType(t *testing.T) {
 			for _, m := range []*refv6.Msg{msg, inIA, relay} {
 				enc := refv6.EncodeMsg(m)
 				for pat := 0; pat <= 6; pat++ {
-					c08.one(t, c08Case{V6: true, B: enc, Pattern: pat, Next: refv6.EncodeMsg(relay)})
+					c08.one(t, c08Case{V6: true, B: enc, Pattern: pat, Next: refv6.EncodeMsg(relay), Route: (pat + seed) % 2})
+				}
+			}
+		}
+	}
+	// relayed messages that do not re-encode to their received bytes (a DHCPv4 message that is not padded to 300 octets,
+	// compressed names, an unterminated partial name, unknown sub-options), through both entry points
+	v4 := append(v4Prefix(), 53, 1, 1, 255) // 245 octets: the library pads its own encoding to 300
+	for _, inner := range [][]byte{
+		append([]byte{20, 1, 2, 3}, v6opt(87, v4)...),
+		append([]byte{1, 1, 2, 3}, v6opt(24, []byte{3, 'a', 'b', 'c', 0, 1, 'x', 0xC0, 0})...),
+		append([]byte{1, 1, 2, 3}, v6opt(39, []byte{0, 4, 'h', 'o', 's', 't'})...),
+		append([]byte{7, 1, 2, 3}, v6opt(56, v6opt(9, []byte{1, 2, 3}))...),
+	} {
+		for depth := 1; depth <= 3; depth++ {
+			b := inner
+			for k := 0; k < depth; k++ {
+				b = append(append(append([]byte{12, byte(k)}, make([]byte, 32)...), v6opt(9, b)...), v6opt(18, []byte{1, 2})...)
+			}
+			for pat := 0; pat <= 6; pat++ {
+				for route := 0; route <= 1; route++ {
+					c08.one(t, c08Case{V6: true, B: b, Pattern: pat, Next: inner, Route: route})
 				}
 			}
 		}
